@@ -6,7 +6,7 @@ from .astutil import unparse, dotted, walk_no_nested, fold, NotConstant
 from . import oracle, docs
 from .encsum import (all_summaries, oracle_spec, compare_with_oracle, injectivity, mask_after_guard, derived_operand,
                      canon, show_cells)
-from .wiring import parse_item_outcomes
+from .wiring import parse_item_outcomes, admits
 
 ASM = 'bronzebeard/asm.py'
 
@@ -152,18 +152,21 @@ ROLE_SYNONYMS = {
 
 
 def class_tables(facts):
-    """{class name: set of table names} from the arms of parse_item (tables whose arm returns that class),
-    and the outcomes per table."""
-    arms, _ = parse_item_outcomes(facts)
+    """{class name: set of table names} and {table name: [Outcome]}: for every mnemonic table, the parse_item outcomes a line that
+    starts with one of its mnemonics can reach (decided from each path's facts about the first token, so it does not matter
+    whether parse_item dispatches on the tables, on single names, through a dispatch dict or an ordered list of parsers)."""
+    arms, else_outs = parse_item_outcomes(facts)
+    outcomes = [o for _, _, outs in arms for o in outs] + list(else_outs)
     cls_tables = {}
     table_outcomes = {}
-    for key, test, outcomes in arms:
-        if key[0] != 'table':
-            continue
-        table_outcomes[key[1]] = outcomes
+    for tname, table in facts.instruction_tables().items():
         for o in outcomes:
-            if o.kind == 'return' and o.cls:
-                cls_tables.setdefault(o.cls, set()).add(key[1])
+            if not o.path.head_facts or not any(f[2] for f in o.path.head_facts):
+                continue            # a path that never asked about the mnemonic (labels, constants, the final refusal)
+            if any(admits(facts, o.path, m) for m in table):
+                table_outcomes.setdefault(tname, []).append(o)
+                if o.kind == 'return' and o.cls:
+                    cls_tables.setdefault(o.cls, set()).add(tname)
     return cls_tables, table_outcomes
 
 
@@ -171,6 +174,8 @@ def operand_index(prov):
     """Which source operand (token index) a constructor argument comes from, and in which shape."""
     if prov[0] == 'tok':
         return prov[1], 'token'
+    if prov[0] == 'lower' and prov[1][0] == 'tok':
+        return prov[1][1], 'token'
     if prov[0] == 'imm':
         inner = prov[1]
         if inner[0] == 'rest' and inner[2] == 0:
@@ -192,11 +197,18 @@ def check_wiring(report, facts, rule, compressed, doc_text):
     syntax, _ = docs.instruction_syntax(doc_text)
     tables = facts.instruction_tables()
     sums = all_summaries(facts)
+    all_arms, else_outs = parse_item_outcomes(facts)
+    opaque_returns = [o for _, _, outs_ in list(all_arms) + [(None, None, else_outs)] for o in outs_
+                      if o.kind == 'return' and (o.cls is None or o.cls not in facts.classes)]
     for tname, table in tables.items():
         mns = [m for m in table if m.startswith('c.') == compressed]
         if not mns:
             continue
         outs = table_outcomes.get(tname)
+        if opaque_returns:
+            o = opaque_returns[0]
+            raise AnalysisError('parse_item returns a value the token flow cannot follow ({}): which item is built for a line is '
+                                'not understood'.format(unparse(o.node).split('\n')[0]))
         if outs is None:
             report.fail(Finding(rule, 'parse_item', 'no arm for ' + tname,
                                 'mnemonic table {} is never consulted by parse_item: {} cannot be written'.format(tname, mns),
@@ -207,6 +219,7 @@ def check_wiring(report, facts, rule, compressed, doc_text):
             report.fail(Finding(rule, 'parse_item', 'no constructor for ' + tname,
                                 'the arm for {} builds no instruction item'.format(tname), line=fn_line(facts, 'parse_item')))
             continue
+        built = set()
         for o in rets:
             cls = o.cls
             report.count('parse paths analysed')
@@ -228,21 +241,25 @@ def check_wiring(report, facts, rule, compressed, doc_text):
                     bound[params[i]] = a
             for k, v in o.kwargs.items():
                 bound[k] = v
+            if not any(isinstance(a, tuple) and a and a[0] == 'star' for a in o.args):
+                required = [p for p, d in facts.init_params(cls) if d is None]
+                missing = [p for p in required if p not in bound]
+                extra = len(o.args) - len(params)
+                owner = facts.init_owner(cls)
+                if missing or (extra > 0 and not (owner is not None and owner.init_vararg)) or any(k not in params for k in o.kwargs):
+                    report.fail(Finding(rule, 'parse_item', o.node, '{} is built with {} argument(s) for the parameters {}{}: the line cannot be '
+                                        'parsed'.format(cls, len(o.args) + len(o.kwargs), params,
+                                                        ' (no value for {})'.format(missing) if missing else ''), line=o.node.lineno),
+                                instance='{} arity {}'.format(cls, unparse(o.node)[:60]))
+                    continue
             # name parameter
             nm = bound.get('name')
+            if nm is not None and nm[0] not in ('tok', 'tokend', 'lower', 'const', 'imm', 'int', 'rest', 'list', 'line'):
+                raise AnalysisError('parse_item: how the name field of {} is filled is not understood: {}'.format(cls, nm))
             if nm != ('lower', ('tok', 0)) and nm != ('tok', 0):
                 report.fail(Finding(rule, 'parse_item', o.node, '{}: the mnemonic token does not reach the name field'.format(cls),
                                     line=o.node.lineno))
-            paren = any("'('" in c[0] and c[1] for c in o.path.conds)
-            # a path taken only for mnemonics of a named set (BASE_OFFSET_INSTRUCTIONS) applies to those only
-            restrict = None
-            for c in o.path.conds:
-                if c[1] and c[2] is not None:
-                    for n in ast.walk(c[2]):
-                        if (isinstance(n, ast.Compare) and len(n.ops) == 1 and isinstance(n.ops[0], ast.In)
-                                and isinstance(n.comparators[0], ast.Name) and n.comparators[0].id in facts.sets
-                                and 'tokens[0]' in unparse(n.left)):
-                            restrict = facts.sets[n.comparators[0].id]
+            paren = o.path.paren_form()
             # route: encoder positional index -> token index
             route = []
             ok_route = True
@@ -253,10 +270,14 @@ def check_wiring(report, facts, rule, compressed, doc_text):
                     route.append((idx, attr, None, 'default'))
                     continue
                 tok, shape = operand_index(bound[param])
+                if shape == 'other':
+                    raise AnalysisError('parse_item: how the {} field of {} is filled is not understood: {} ({})'.format(
+                        attr, cls, bound[param], unparse(o.node).split('\n')[0]))
                 route.append((idx, attr, tok, shape))
             for m in mns:
-                if restrict is not None and m not in restrict:
-                    continue
+                if not admits(facts, o.path, m):
+                    continue            # a line starting with m never takes this path
+                built.add(m)
                 s = sums[m]
                 spec = oracle_spec(m)
                 if spec is None:
@@ -310,6 +331,11 @@ def check_wiring(report, facts, rule, compressed, doc_text):
                         report.fail(Finding(rule, 'parse_item', o.node, '{}: {}'.format(label, pr), line=o.node.lineno), instance=label)
                 else:
                     report.ok(rule, label + ': operand k -> encoder parameter k')
+        for m in mns:
+            if m not in built and oracle_spec(m) is not None:
+                report.fail(Finding(rule, 'parse_item', 'no constructor for ' + m,
+                                    'no path of parse_item builds an instruction item for {} ({}): it cannot be written'.format(m, tname),
+                                    line=fn_line(facts, 'parse_item')), instance=m)
         # documented syntax agrees with the oracle's operand roles
         for m in mns:
             spec = oracle_spec(m)
@@ -335,9 +361,39 @@ def check_wiring(report, facts, rule, compressed, doc_text):
                                     file='docs/instruction_reference.rst'), instance=m)
 
 
+def rebuild_sites(facts):
+    """Calls that rebuild an item from its attribute dict: ('positional', node) for `<class of item>(*d.values())`,
+    ('keyword', node) for `<class of item>(**d)`, where <class of item> is `x.__class__` or `type(x)`."""
+    out = []
+    for fn in facts.funcs.values():
+        for n in ast.walk(fn):
+            if not isinstance(n, ast.Call):
+                continue
+            f = n.func
+            dyn = (isinstance(f, ast.Attribute) and f.attr == '__class__') or \
+                  (isinstance(f, ast.Call) and isinstance(f.func, ast.Name) and f.func.id == 'type' and len(f.args) == 1)
+            if not dyn:
+                continue
+            if any(isinstance(a, ast.Starred) and isinstance(a.value, ast.Call) and isinstance(a.value.func, ast.Attribute)
+                   and a.value.func.attr == 'values' for a in n.args):
+                out.append(('positional', n))
+            elif any(k.arg is None for k in n.keywords) and not n.args:
+                out.append(('keyword', n))
+            elif any(isinstance(a, ast.Starred) for a in n.args):
+                out.append(('positional', n))
+    return out
+
+
 def check_rebuild_invariant(report, facts, rule):
-    """attribute assignment order in __init__ == constructor parameter order, each `self.x = x` (positional rebuild
-    `item.__class__(*vars(item).values())` relies on it)."""
+    """Items are rebuilt from their attribute dict (`item.__class__(*vars(item).values())`): for a positional rebuild the attribute
+    assignment order of __init__ must equal the constructor parameter order, each `self.x = x`; for a keyword rebuild
+    (`item.__class__(**vars(item))`) every attribute must be stored under the name of the parameter it comes from (order free);
+    without any rebuild site the order carries no meaning."""
+    sites = rebuild_sites(facts)
+    report.count('item rebuild sites', len(sites))
+    positional = any(k == 'positional' for k, _ in sites)
+    if not sites:
+        report.note('no `item.__class__(*fields.values())` / `(**fields)` rebuild found: attribute order of the item classes is not load-bearing')
     n = 0
     for cname in facts.subclasses('Item'):
         ci = facts.classes[cname]
@@ -363,7 +419,11 @@ def check_rebuild_invariant(report, facts, rule):
             continue
         got = [(a, s) for a, s in order]
         want = [(p, p) for p in params]
-        if got == want:
+        if not sites:
+            report.ok(rule, '{}: never rebuilt from its attribute dict'.format(cname), nontrivial=False)
+        elif not positional and sorted(got) == sorted(want):
+            report.ok(rule, '{}: attributes {} stored under their parameter names (keyword rebuild)'.format(cname, sorted(a for a, _ in got)))
+        elif got == want:
             report.ok(rule, '{}: attribute order {} == parameter order'.format(cname, [a for a, _ in got]))
         else:
             report.fail(Finding(rule, cname + '.__init__', 'attribute order',
@@ -402,120 +462,9 @@ def check_registers(report, facts, rule):
 
 
 def check_resolve_instructions(report, facts, rule):
-    """resolve_instructions: encoder = INSTRUCTIONS[item.name]; positional args in args() order; aq/rl as keywords for the
-    A classes; '<H' exactly for CompressedInstruction else '<I'."""
-    fn = facts.funcs.get('resolve_instructions')
-    if fn is None:
-        raise AnalysisError('anchor vanished: resolve_instructions')
-    src = fn
-    # encoder lookup
-    lookups = [n for n in ast.walk(src) if isinstance(n, ast.Subscript) and isinstance(n.value, ast.Name) and n.value.id == 'INSTRUCTIONS']
-    ok_lookup = any(unparse(n.slice) == 'item.name' for n in lookups)
-    report.check(ok_lookup, rule, 'encoder = INSTRUCTIONS[item.name]',
-                 lambda: Finding(rule, 'resolve_instructions', lookups[0] if lookups else 'INSTRUCTIONS',
-                                 'the encoder is not looked up by the item\'s own mnemonic', line=fn.lineno))
-    # format selection
-    fmts = {}
-    for n in ast.walk(src):
-        if isinstance(n, ast.If) and isinstance(n.test, ast.Call) and dotted(n.test.func) == 'isinstance':
-            cls = unparse(n.test.args[1]) if len(n.test.args) == 2 else None
-            for st in n.body:
-                if isinstance(st, ast.Assign) and isinstance(st.value, ast.Constant) and isinstance(st.value.value, str):
-                    fmts[('if', cls)] = (st.value.value, st)
-            for st in n.orelse:
-                if isinstance(st, ast.Assign) and isinstance(st.value, ast.Constant) and isinstance(st.value.value, str):
-                    fmts[('else', cls)] = (st.value.value, st)
-    want = {('if', 'CompressedInstruction'): '<H', ('else', 'CompressedInstruction'): '<I'}
-    for k, w in want.items():
-        got = fmts.get(k)
-        report.check(got is not None and got[0] == w, rule, 'struct format {} on the {} arm'.format(w, k[0]),
-                     lambda k=k, w=w, got=got: Finding(rule, 'resolve_instructions', got[1] if got else 'fmt',
-                                                       'instruction words must be packed as {!r} ({}-endian {}-bit) on the `{} isinstance(item, {})` arm, found {!r}'.format(
-                                                           w, 'little', 16 if w == '<H' else 32, k[0], k[1], got[0] if got else None),
-                                                       line=(got[1].lineno if got else fn.lineno)))
-    packs = [n for n in ast.walk(src) if isinstance(n, ast.Call) and dotted(n.func) == 'struct.pack']
-    fmt_names = {st.targets[0].id for (_, st) in fmts.values() if isinstance(st.targets[0], ast.Name)}
-    good_pack = (len(packs) == 1 and len(packs[0].args) == 2 and isinstance(packs[0].args[0], ast.Name)
-                 and packs[0].args[0].id in fmt_names and isinstance(packs[0].args[1], ast.Name))
-    if good_pack:
-        code_name = packs[0].args[1].id
-        code_defs = [n for n in ast.walk(src) if isinstance(n, ast.Assign) and isinstance(n.targets[0], ast.Name)
-                     and n.targets[0].id == code_name and n is not getattr(packs[0], '_parent', None)]
-        good_pack = bool(code_defs) and all(isinstance(d.value, ast.Call) and isinstance(d.value.func, ast.Name) for d in code_defs)
-    report.check(good_pack, rule, 'struct.pack(<selected format>, <encoder result>)',
-                 lambda: Finding(rule, 'resolve_instructions', packs[0] if packs else 'struct.pack',
-                                 'the encoded word is not packed with the selected format', line=fn.lineno))
-    # argument passing: every call of the looked-up encoder passes *<args() prefix> positionally, and the tail of
-    # args() as aq=, rl= keywords (in that order) when it is split off
-    enc_names = set()
-    defs = {}
-    for n in ast.walk(src):
-        if isinstance(n, ast.Assign) and len(n.targets) == 1:
-            t = n.targets[0]
-            if isinstance(t, ast.Name):
-                defs.setdefault(t.id, []).append(n)
-                if isinstance(n.value, ast.Subscript) and isinstance(n.value.value, ast.Name) and n.value.value.id == 'INSTRUCTIONS':
-                    enc_names.add(t.id)
-            elif isinstance(t, ast.Tuple):
-                for e in t.elts:
-                    nm = e.value if isinstance(e, ast.Starred) else e
-                    if isinstance(nm, ast.Name):
-                        defs.setdefault(nm.id, []).append(n)
-    calls = [n for n in ast.walk(src) if isinstance(n, ast.Call) and isinstance(n.func, ast.Name) and n.func.id in enc_names]
-    report.count('encoder call sites', len(calls))
-    if not calls:
-        raise AnalysisError('anchor vanished: encoder call in resolve_instructions')
-
-    def is_args_call(v):
-        return (isinstance(v, ast.Call) and isinstance(v.func, ast.Attribute) and v.func.attr == 'args'
-                and isinstance(v.func.value, ast.Name) and v.func.value.id == 'item')
-
-    for c in calls:
-        problem = None
-        if len(c.args) != 1 or not isinstance(c.args[0], ast.Starred) or not isinstance(c.args[0].value, ast.Name):
-            problem = 'positional arguments are not a single *<list from item.args()>'
-        else:
-            nm = c.args[0].value.id
-            ds = defs.get(nm, [])
-            kws = {kw.arg: kw.value for kw in c.keywords}
-            ok = False
-            for d in ds:
-                t = d.targets[0]
-                if isinstance(t, ast.Name) and is_args_call(d.value) and not kws:
-                    ok = True
-                if (isinstance(t, ast.Tuple) and is_args_call(d.value) and len(t.elts) == 3 and isinstance(t.elts[0], ast.Starred)
-                        and isinstance(t.elts[0].value, ast.Name) and t.elts[0].value.id == nm
-                        and all(isinstance(e, ast.Name) for e in t.elts[1:])):
-                    a, b = t.elts[1].id, t.elts[2].id
-                    if set(kws) == {'aq', 'rl'} and isinstance(kws['aq'], ast.Name) and isinstance(kws['rl'], ast.Name) \
-                            and kws['aq'].id == a and kws['rl'].id == b:
-                        ok = True
-            if not ok:
-                problem = 'arguments do not follow args() order (prefix positional, last two as aq=, rl=)'
-        report.check(problem is None, rule, 'encoder call ' + unparse(c),
-                     lambda c=c, problem=problem: Finding(rule, 'resolve_instructions', c, problem, line=c.lineno))
-    # the keyword form is used exactly for the classes whose args() ends in aq, rl
-    kw_calls = [c for c in calls if c.keywords]
-    for c in kw_calls:
-        test = None
-        cur = c
-        for p in parents_of(c):
-            if isinstance(p, ast.If) and cur in ast.walk(p) and any(cur is x or cur in ast.walk(x) for x in p.body):
-                test = p.test
-                break
-        classes = set()
-        if test is not None:
-            for n in ast.walk(test):
-                if isinstance(n, ast.Call) and dotted(n.func) == 'isinstance' and len(n.args) == 2:
-                    classes.add(unparse(n.args[1]))
-        want_cls = {cn for cn in facts.subclasses('Instruction') if (facts.args_attrs(cn) or [])[-2:] == ['aq', 'rl']}
-        report.check(classes == want_cls, rule, 'aq=/rl= keyword call guarded by isinstance of {}'.format(sorted(want_cls)),
-                     lambda: Finding(rule, 'resolve_instructions', c, 'keyword form used for {} but classes whose args() end in aq, rl are {}'.format(
-                         sorted(classes), sorted(want_cls)), line=c.lineno))
-
-
-def parents_of(node):
-    p = getattr(node, '_parent', None)
-    while p is not None:
-        yield p
-        p = getattr(p, '_parent', None)
+    """resolve_instructions, over its paths (helpers / closures / higher-order skeletons inlined): for every concrete Instruction
+    class the word packed is the result of INSTRUCTIONS[item.name] called with the elements of item.args() in order (the last two
+    as aq=, rl= exactly for the classes whose args() ends in aq, rl), packed '<H' exactly for CompressedInstruction else '<I'.
+    See packrule.py."""
+    from .packrule import check_pack_rule
+    check_pack_rule(report, facts, rule)
